@@ -38,6 +38,19 @@ def hook_present():
     return "RRZE_HPC_OSACA_VERIF_CRASH" in src
 
 
+def rehash_in_source():
+    """Does _write_in_cache take the cache key from another read of the model file (True) or is it handed the hash of
+    the bytes that were parsed (False)?  Decides the w_rehash flag of the Coq setup; the generated histories contain
+    no edit inside a load, so the flag selects which theorems apply, not whether a trace is accepted."""
+    import ast
+    src = open(os.path.join(vlib.REPO, "osaca", "semantics", "hw_model.py")).read()
+    for node in ast.walk(ast.parse(src)):
+        if (isinstance(node, ast.Call) and isinstance(node.func, ast.Attribute) and node.func.attr == "_write_in_cache"
+                and (len(node.args) >= 2 or node.keywords)):
+            return False
+    return True
+
+
 def internal_version():
     from osaca.semantics.hw_model import MachineModel
     return MachineModel.INTERNAL_VERSION
@@ -216,10 +229,12 @@ class World:
                     continue
                 if p in expected:
                     continue
-                m = re.match(r"^\.?([A-Za-z0-9]+)_[0-9a-f]{64}\.pickle\.(\d+)\.tmp$", f)
-                if m and int(m.group(2)) in self.ospid:
-                    n = self.ospid[int(m.group(2))]
-                    seen_tmp[3 * n + (1 if m.group(1) == self.isa else 0)] = p
+                m = re.match(r"^\.?([A-Za-z0-9]+)_([0-9a-f]{64})\.pickle\.(\d+)\.tmp$", f)
+                if m and int(m.group(3)) in self.ospid:
+                    n = self.ospid[int(m.group(3))]
+                    # the temp file is identified by the key in its own name (the content it was written for), never by
+                    # the current content of the model file: it does not change when the model file is edited later
+                    seen_tmp[3 * n + (1 if m.group(1) == self.isa else 0)] = (p, self.cid_of_hash.get(m.group(2)))
                 else:
                     if f not in self.unexpected:
                         self.unexpected.append(f)
@@ -231,7 +246,7 @@ class World:
                 state.append("%s=%s" % (self.coq_loc(loc), obs))
         for n in range(self.ncli):
             for pid in (3 * n, 3 * n + 1):
-                obs = self.observe_file(seen_tmp[pid], refs, prefer=self.cur if pid % 3 == 0 else CID_ISA) if pid in seen_tmp else "OAbsent"
+                obs = self.observe_file(seen_tmp[pid][0], refs, prefer=seen_tmp[pid][1]) if pid in seen_tmp else "OAbsent"
                 self.events.append("EvSeeFile (Tmp %d) %s" % (pid, obs))
                 if obs != "OAbsent":
                     state.append("Tmp%d=%s" % (pid, obs))
@@ -355,7 +370,8 @@ class World:
 
     # ------------------------------------------------------------------ Coq rendering
     def coq_setup(self, disc, iv):
-        w = "(mkSetup %d (mkCfg %d 0) %s (mkEnv (fun _ => %s) true))" % (NCH, iv, disc, "false" if self.mode == "home" else "true")
+        w = "(mkSetup %d (mkCfg %d 0) %s (mkEnv (fun _ => %s) true) %s)" % (
+            NCH, iv, disc, "false" if self.mode == "home" else "true", "true" if rehash_in_source() else "false")
         s0 = ("(empty_state (fun p => if path_eqb p (mkPath 0 0) then %d else if path_eqb p (mkPath 2 0) then %d else %d))"
               % (CID_ARCH0, CID_OTHER, CID_ISA))
         return w, s0
